@@ -48,7 +48,7 @@ def drive_(a, rng):
         case["mode"] = "within"
         case["within"] = within if within is not None else [int(u) - off for u in ts.samples()]
         case["between"] = []
-        kw = dict(within=None if within is None else [u + off for u in within])
+        kw = dict(within=None if within is None else gen.arg_form(rng, [u + off for u in within]))
     else:
         nodes = rng.sample(range(N), rng.randint(2, min(6, N)))
         k = rng.randint(2, min(3, len(nodes)))
@@ -61,7 +61,7 @@ def drive_(a, rng):
         case["mode"] = "between"
         case["within"] = []
         case["between"] = groups
-        kw = dict(between=[[u + off for u in g] for g in groups])
+        kw = dict(between=[gen.arg_form(rng, [u + off for u in g]) for g in groups])
     ms = rng.choice([0, 0, 0, 1, 2])
     mt2 = rng.choice([-1, -1] + list(range(0, 2 * max(a["time"]) + 3)))
     sp = rng.random() < 0.8
